@@ -155,7 +155,7 @@ class Ctx:
         src = os.path.join(self.work, "consts_%s_test.go" % re.sub(r"\W", "_", pkg))
         with open(src, "w") as f:
             f.write("\n".join(body))
-        rc, out = self.go_test(pkg, "TestVerifConsts$", {pkg + "/zz_verif_consts_test.go": src}, timeout=900)
+        rc, out = self.go_test(pkg, "TestVerifConsts$", {pkg + "/zz_verif_consts_test.go": src}, timeout=900, extra=("-v",))
         vals = dict(re.findall(r"^VCONST (\w+) (-?\d+)$", out, re.M))
         ok = rc == 0 and all(cn in vals for cn, _ in items)
         if not ok:
